@@ -49,8 +49,8 @@ type TLCResult struct {
 	ExitCode   int
 	Output     string
 	Wall       time.Duration
-	Prints     []string       // lines printed by PrintT that start with "@P / "@
-	ZeroCov    []string       // coverage lines with count 0 (only with Coverage)
+	Prints     []string         // lines printed by PrintT that start with "@P / "@
+	ZeroCov    []string         // coverage lines with count 0 (only with Coverage)
 	ActionCov  map[string]int64 // per action: distinct states found
 	Dir        string
 	ErrorTrace string
